@@ -92,7 +92,10 @@ C12Viol(e) ==
       ELSE IF e.established = "yes" THEN
            (IF e.version # VMax(base \cap cb) THEN {V("NotHighestCommonVersion", "got=" \o e.version, e)} ELSE {})
            \cup (IF e.sid # SidText(c.sid) THEN {V("WrongSessionIdReported", "sid=" \o c.sid, e)} ELSE {})
-           \cup (IF SeqToSet(e.caps) # SeqToSet(e.hello_caps) THEN {V("WrongCapabilitiesReported", "ns=" \o c.ns, e)} ELSE {})
+           \cup (IF SeqToSet(e.caps) = SeqToSet(e.hello_caps) THEN {}
+                 ELSE IF SeqToSet(e.caps_unescaped) = SeqToSet(e.hello_caps)
+                 THEN {V("CapabilityReportedWithXmlEscapingLeftIn", "capability URI containing '&'", e)}
+                 ELSE {V("WrongCapabilitiesReported", "ns=" \o c.ns, e)})
            \cup (IF e.framing # FramingOf(e.version)
                  THEN {V("FramingNotAsNegotiated", "negotiated=" \o e.version \o " framing=" \o e.framing, e)} ELSE {})
       ELSE {}
